@@ -10,8 +10,8 @@ CLAIMED = {
         "hash for every bit pattern of the data members, including signed zeros and NaNs, same-object and cached-hash cases. "
         "Composite classes Pow, Interval, TwoArgBasic<> (all relationals and two-argument functions), OneArgFunction, Complement, Contains (and unified_eq on RCP operands) are "
         "proved as callers against the CALLEE CONTRACT of their children (abstract children with eq <=> equal rank, equal rank => equal hash; any sharing): eq implies equal hash, hash cache "
-        "consistent. Add::__hash__/__eq__ over a two-term dictionary and Mul::__hash__/__eq__ over a two-factor ordered dictionary are bounded stand-ins (hash_t narrowed to 16 bits; not counted as proved). MSymEnginePoly::__eq__ / MIntPoly::__hash__ "
-        "and is_constant are a bounded stand-in (<= 2 terms in <= 2 of 4 variables), including equal constants over different variable sets. Multi-argument functions, other sets, "
+        "consistent. Add::__hash__/__eq__ over a two-term dictionary Mul::__hash__/__eq__ over a two-factor ordered dictionary, MultiArgFunction (argument lists <= 3) and FiniteSet (<= 3 elements) are bounded stand-ins (hash_t narrowed to 16 bits; not counted as proved). MSymEnginePoly::__eq__ / MIntPoly::__hash__ "
+        "and is_constant are a bounded stand-in (<= 2 terms in <= 2 of 4 variables), including equal constants over different variable sets. Other sets, "
         "booleans, other polynomial classes and matrices are not under contract.",
    note="Trusted: stub GMP integer/rational (==, <, mp_get_*), std::complex ==, hand-written dispatch for virtual calls, extraction rules; CBMC tool chain.",
    tech="contract-based deductive verification with CBMC on mechanically extracted function text (route F: loop-free, full domain)"),
@@ -20,7 +20,7 @@ CLAIMED = {
         "{-1,0,1}, zero iff eq, antisymmetric, transitive, for every triple of leaf objects of any classes. NaN doubles violate the "
         "axioms (known finding C02_NAN_DOUBLE): those obligations are proved on the complement. The compare methods of Pow, Interval, TwoArgBasic<>, OneArgFunction, Complement, Contains "
         "(and unified_compare on RCP operands) are proved as callers against the children's contract (children totally ordered by an abstract rank consistent with eq, hash collisions allowed): "
-        "the parent is again a three-way total order consistent with eq; RCPBasicKeyLess (hash order, eq, __cmp__) is a strict weak order whose equivalence is eq, given eq => equal hash (C01 used as a lemma). Mul::compare and Add::compare (<= 2 dictionary entries, ordered_compare on the real dict.h templates, Add's map range constructor assumed to sort with the real RCPBasicKeyLess) and MSymEnginePoly::compare for MIntPoly are bounded stand-ins (three polynomials, <= 2 terms in <= 2 of 4 variables; dictionary/set comparison stubs written from dict.h). Other classes not under contract.",
+        "the parent is again a three-way total order consistent with eq; RCPBasicKeyLess (hash order, eq, __cmp__) is a strict weak order whose equivalence is eq, given eq => equal hash (C01 used as a lemma). MultiArgFunction::compare, FiniteSet::compare (<= 3 elements), Mul::compare and Add::compare (<= 2 dictionary entries, ordered_compare on the real dict.h templates, Add's map range constructor assumed to sort with the real RCPBasicKeyLess) and MSymEnginePoly::compare for MIntPoly are bounded stand-ins (three polynomials, <= 2 terms in <= 2 of 4 variables; dictionary/set comparison stubs written from dict.h). Other classes not under contract.",
    note="Trusted: as C01; rational '<' is an assumed strict total order consistent with == (GMP).",
    tech="contract-based deductive verification with CBMC on mechanically extracted function text (route F: loop-free, full domain)"),
  "C06": dict(cat="proof", design="§4 C06",
